@@ -216,32 +216,21 @@ theorem find_first {α} (f : Nat → α) (p : α → Bool) :
         · exact hall m h
         · subst h; simpa using hx
 
-/-- the caller's `default` is not the idx of a device of the group -/
-def NoSentinel (g : Grp) (dflt : Val) : Prop := ∀ i, dflt = some i → i ∉ used g
-
 theorem hits_sub_used (g : Grp) (m : Nat) (keys : List Nat) (q : List Val) (i : Idx)
     (h : i ∈ hits (rowsOf g m) keys q) : i ∈ used g := by
   obtain ⟨d, hd, rfl, _⟩ := (mem_hits _ _ _ _).mp h
   unfold rowsOf at hd
   exact List.mem_map.mpr ⟨d, (List.mem_filter.mp hd).1, rfl⟩
 
-theorem perModel_default_iff (g : Grp) (keys : List Nat) (dflt : Val) (q : List Val) (m : Nat)
-    (hs : NoSentinel g dflt) : perModel g keys dflt q m = [dflt] ↔ hits (rowsOf g m) keys q = [] := by
+theorem perModel_none_iff (g : Grp) (keys : List Nat) (q : List Val) (m : Nat) :
+    perModel g keys q m = none ↔ hits (rowsOf g m) keys q = [] := by
   unfold perModel
   cases hh : hits (rowsOf g m) keys q with
   | nil => simp
-  | cons a t =>
-    simp only [List.isEmpty_cons, Bool.false_eq_true, if_false, List.map_cons]
-    constructor
-    · intro h
-      have h1 : some a = dflt := by
-        have := List.cons.inj h; exact this.1
-      have : a ∈ hits (rowsOf g m) keys q := by rw [hh]; simp
-      exact absurd (hits_sub_used g m keys q a this) (hs a h1.symm)
-    · intro h; cases h
+  | cons a t => simp
 
-theorem perModel_hits (g : Grp) (keys : List Nat) (dflt : Val) (q : List Val) (m : Nat)
-    (h : hits (rowsOf g m) keys q ≠ []) : perModel g keys dflt q m = (hits (rowsOf g m) keys q).map some := by
+theorem perModel_hits (g : Grp) (keys : List Nat) (q : List Val) (m : Nat)
+    (h : hits (rowsOf g m) keys q ≠ []) : perModel g keys q m = some ((hits (rowsOf g m) keys q).map some) := by
   unfold perModel
   cases hh : hits (rowsOf g m) keys q with
   | nil => exact absurd hh h
@@ -278,59 +267,55 @@ theorem mem_allHits (g : Grp) (nm : Nat) (keys : List Nat) (q : List Val) (i : I
   unfold allHits
   simp [List.mem_flatMap]
 
-theorem found_flatten (g : Grp) (keys : List Nat) (dflt : Val) (q : List Val) (hs : NoSentinel g dflt) :
+theorem found_flatten (g : Grp) (keys : List Nat) (q : List Val) :
     ∀ l : List Nat,
-      ((l.map (perModel g keys dflt q)).filter (fun x => decide (x ≠ [dflt]))).flatten
+      ((l.map (perModel g keys q)).filterMap id).flatten
         = (l.flatMap (fun m => hits (rowsOf g m) keys q)).map some
   | [] => rfl
   | m :: l => by
-    have ih := found_flatten g keys dflt q hs l
+    have ih := found_flatten g keys q l
     rw [List.map_cons, List.flatMap_cons, List.map_append]
     by_cases he : hits (rowsOf g m) keys q = []
-    · have hp : perModel g keys dflt q m = [dflt] := (perModel_default_iff g keys dflt q m hs).mpr he
-      have hd : decide (perModel g keys dflt q m ≠ [dflt]) = false := by simp [hp]
-      simp only [List.filter_cons, hd, Bool.false_eq_true, ↓reduceIte, ih, he, List.map_nil, List.nil_append]
-    · have hp : perModel g keys dflt q m ≠ [dflt] := fun e => he ((perModel_default_iff g keys dflt q m hs).mp e)
-      have hp2 := perModel_hits g keys dflt q m he
-      have hd : decide (perModel g keys dflt q m ≠ [dflt]) = true := by simp [hp]
-      simp only [List.filter_cons, hd, ↓reduceIte]
-      rw [List.flatten_cons, ih, hp2]
+    · have hp : perModel g keys q m = none := (perModel_none_iff g keys q m).mpr he
+      simp only [List.filterMap_cons, id_eq, hp, he, List.map_nil, List.nil_append]
+      exact ih
+    · have hp2 := perModel_hits g keys q m he
+      simp only [List.filterMap_cons, id_eq, hp2, List.flatten_cons]
+      exact congrArg _ ih
 
-/-- what `GroupBase.find_idx` computes for one search tuple (when `default` is not a device idx):
+/-- what `GroupBase.find_idx` computes for one search tuple, for EVERY `default`:
 `missing` iff no model matches, else EVERY match of every model, models in group order -/
-theorem groupFindOne_spec (g : Grp) (nm : Nat) (keys : List Nat) (dflt : Val) (q : List Val)
-    (hs : NoSentinel g dflt) :
+theorem groupFindOne_spec (g : Grp) (nm : Nat) (keys : List Nat) (dflt : Val) (q : List Val) :
     (allHits g nm keys q = [] ∧ groupFindOne g nm keys dflt q = ([dflt], true)) ∨
     (allHits g nm keys q ≠ [] ∧ groupFindOne g nm keys dflt q = ((allHits g nm keys q).map some, false)) := by
-  have hf := found_flatten g keys dflt q hs (List.range nm)
+  have hf := found_flatten g keys q (List.range nm)
   unfold groupFindOne
   simp only
   by_cases hall : allHits g nm keys q = []
   · left
     refine ⟨hall, ?_⟩
-    have hemp : ((List.range nm).map (perModel g keys dflt q)).filter (fun l => decide (l ≠ [dflt])) = [] := by
-      rw [List.filter_eq_nil_iff]
+    have hemp : ((List.range nm).map (perModel g keys q)).filterMap id = [] := by
+      rw [List.filterMap_eq_nil_iff]
       intro x hx
       obtain ⟨m, hm, rfl⟩ := List.mem_map.mp hx
       have := (allHits_nil_iff g nm keys q).mp hall m (List.mem_range.mp hm)
-      simp [(perModel_default_iff g keys dflt q m hs).mpr this]
+      simp [(perModel_none_iff g keys q m).mpr this]
     rw [hemp]
     rfl
   · right
     refine ⟨hall, ?_⟩
-    have hne : ((List.range nm).map (perModel g keys dflt q)).filter (fun l => decide (l ≠ [dflt])) ≠ [] := by
+    have hne : ((List.range nm).map (perModel g keys q)).filterMap id ≠ [] := by
       intro he
       rw [he] at hf
       simp only [List.flatten_nil] at hf
       apply hall
       unfold allHits
       exact List.map_eq_nil_iff.mp hf.symm
-    have : (((List.range nm).map (perModel g keys dflt q)).filter (fun l => decide (l ≠ [dflt]))).isEmpty = false := by
-      cases hh : ((List.range nm).map (perModel g keys dflt q)).filter (fun l => decide (l ≠ [dflt])) with
+    have : (((List.range nm).map (perModel g keys q)).filterMap id).isEmpty = false := by
+      cases hh : ((List.range nm).map (perModel g keys q)).filterMap id with
       | nil => exact absurd hh hne
-      | cons a t => rfl
-    rw [this]
-    simp only [Bool.false_eq_true, if_false]
+      | cons _ _ => rfl
+    simp only [this, Bool.false_eq_true, if_false]
     rw [hf]
     rfl
 
@@ -466,7 +451,6 @@ theorem collectRefM_getElem? (g : Grp) (hI : Inv g) (m : Nat) (refs : List (Idx 
 
 def inScope (c : FCfg) (d : Dev) : Prop := if c.isModel then d.mdl = c.target else d.mdl < c.nm
 
-theorem noSentinel_none (g : Grp) : NoSentinel g none := by intro i h; cases h
 
 theorem hits_single (rows : Grp) (key : Nat) (v : Val) (i : Idx) :
     i ∈ hits rows [key] [v] ↔ ∃ d ∈ rows, d.idx = i ∧ d.get key = v := by
@@ -501,7 +485,7 @@ theorem search_some (c : FCfg) (g : Grp) (key : Nat) (v : Val) (j : Idx) (h : se
     exact ⟨d, this.1, h1, h2, by simp [inScope, hm, this.2]⟩
   | false =>
     rw [search_group c g key v hm] at h
-    rcases groupFindOne_spec g c.nm [key] none [v] (noSentinel_none g) with ⟨_, h2⟩ | ⟨_, h2⟩
+    rcases groupFindOne_spec g c.nm [key] none [v] with ⟨_, h2⟩ | ⟨_, h2⟩
     · rw [h2] at h; simp at h
     · rw [h2] at h
       cases hh : allHits g c.nm [key] [v] with
@@ -529,7 +513,7 @@ theorem search_none (c : FCfg) (g : Grp) (key : Nat) (v : Val) (h : search c g k
     have hlt : d.mdl < c.nm := by simpa [inScope, hm] using hsc
     have hin : d.idx ∈ hits (rowsOf g d.mdl) [key] [v] :=
       (hits_single _ _ _ _).mpr ⟨d, mem_rowsOf.mpr ⟨hd, rfl⟩, rfl, hv⟩
-    rcases groupFindOne_spec g c.nm [key] none [v] (noSentinel_none g) with ⟨h1, _⟩ | ⟨hne, h2⟩
+    rcases groupFindOne_spec g c.nm [key] none [v] with ⟨h1, _⟩ | ⟨hne, h2⟩
     · have := (allHits_nil_iff g c.nm [key] [v]).mp h1 d.mdl hlt
       rw [this] at hin; cases hin
     · rw [h2] at h
